@@ -42,7 +42,12 @@ RULE = ("one evaluation = one matrix build (class, entry point, parent populatio
         "pgmat.mat or vrnt_genpos edited in place, nself, counts, map-function object, mem, unique_parents, entry point, "
         "percentile): [A,B,A] for every single change B of A plus one accumulating chain, for the 4 UC problem classes, "
         "all 16 matrix classes and the factories; every build must equal the reference AND the same configuration "
-        "built afterwards in isolation from fresh objects; every library call is followed by an inputs-untouched check. "
+        "built afterwards in isolation from fresh objects; every library call is followed by an inputs-untouched check; "
+        "L8 (result objects): on the computed matrix of every class, with taxon labels not in sorted order, deepcopy, "
+        "reorder_taxa(all permutations), reorder(axis), sort_taxa(), group_taxa() in place and select_taxa(every ordered "
+        "subset): every entry addressed BY LABEL must be the value computed for that labelled parent tuple on all parent "
+        "axes and equal the reference, taxa_grp must follow, the source must stay untouched and square_taxa_axes / "
+        "nsquare_taxa / trait axes must describe the k parent axes. "
         "non-trivial = a build with at least one parent tuple whose expected variance is non-zero and (genetic classes) "
         "changed by linkage (genetic != genic); distinct by digest of the configuration")
 ASSUME = ["Haldane (no interference) meiosis; genetic positions in Morgans; unlinked chromosomes r = 1/2",
@@ -468,8 +473,8 @@ def check_object(ctx, case, scheme, kind, obj, pg, gm, exp, what="value", rec_ca
         ctx.count("entries:identical-inbred-parents(expected 0)", int(ident.sum()))
         assert numpy.all(numpy.abs(want[ident]) <= ATOL), "reference gives variance for identical inbred parents"
     # symmetry in exchangeable parents, on the library output alone (entries of the regular kind only)
-    reg = masks["cross"]
-    for xname, perm in EXCHANGES[scheme].items():
+    reg = masks.get("cross")
+    for xname, perm in (EXCHANGES[scheme].items() if reg is not None else ()):
         axes = tuple(perm) + tuple(range(k, got.ndim))
         sw = numpy.transpose(got, axes)
         both = reg & numpy.transpose(reg, perm)
@@ -512,6 +517,10 @@ def norm_case(case):
     c["layout"] = (tuple(int(v) for v in case["layout"][0]), tuple(float(v) for v in case["layout"][1]))
     c["u"] = [[float(v) for v in row] for row in case["u"]]
     c["counts"] = tuple(case.get("counts", (1, 1)))
+    if "order" in case and case["order"] is not None:
+        c["order"] = [int(v) for v in case["order"]]
+    if case.get("arg") is not None:
+        c["arg"] = [int(v) for v in case["arg"]]
     return c
 
 
@@ -1067,6 +1076,143 @@ def history_base(scheme, seed, pi):
 
 
 # ----------------------------------------------------------------------------
+# L8: operations on the RESULT object.  The computed matrix is a labelled square-taxa matrix; after
+# reorder_taxa(perm) / reorder(perm, axis) / sort_taxa() / group_taxa() (in place) and select_taxa(subset)
+# (new object) every entry addressed BY LABEL must still be the value computed for that labelled parent tuple
+# (and equal the reference), on ALL parent axes; the square-axes metadata must describe the parent axes.
+RESULT_OPS = ("deepcopy", "reorder_taxa", "reorder", "sort_taxa", "group_taxa", "select_taxa")
+
+
+def result_op_cases(n):
+    out = [("deepcopy", None), ("sort_taxa", None), ("group_taxa", None)]
+    for perm in itertools.permutations(range(n)):
+        out.append(("reorder_taxa", list(perm)))
+    out.append(("reorder", list(range(n))[::-1]))
+    out.append(("reorder", [(i + 1) % n for i in range(n)]))
+    for r in range(1, n + 1):
+        for sub in itertools.permutations(range(n), r):
+            out.append(("select_taxa", list(sub)))
+    return out
+
+
+def run_result_op(ctx, case, base=None):
+    import types
+    case = norm_case(case)
+    scheme, kind, op, arg, seed = case["scheme"], case["kind"], case["op"], case["arg"], case["seed"]
+    name = clsname(scheme, kind)
+    k = NPAR[scheme]
+    order = list(case["order"])
+    pop_eff = tuple(case["pop"][i] for i in order)            # population in the order of the matrix axes
+    ctx.evaluations += 1
+    ctx.count(f"result-op:{name}")
+    if base is None:
+        box0 = {}
+
+        def build0():
+            pg = make_pgmat(case["pop"], case["layout"], seed, order=order)
+            gm = make_model(case["u"], seed)
+            box0["o"] = lib_build(scheme, kind, "from_algmod", pg, gm, case["nself"], case["mem"], case["counts"])
+        ctx.transitions += 1
+        if not ctx.guard(build0, case=case, sig_prefix=f"{name}:"):
+            ctx.count(f"raised:{name}")
+            return
+        base = box0["o"]
+    names0 = list(base.taxa.tolist())
+    grp0 = [int(v) for v in base.taxa_grp.tolist()]
+    mat0 = base.mat.copy()
+    box = {}
+
+    def call():
+        q = base.deepcopy()
+        if op == "deepcopy":
+            r = q
+        elif op == "reorder_taxa":
+            q.reorder_taxa(numpy.array(arg, dtype="int64"))
+            r = q
+        elif op == "reorder":
+            q.reorder(numpy.array(arg, dtype="int64"), axis=q.taxa_axis)
+            r = q
+        elif op == "sort_taxa":
+            q.sort_taxa()
+            r = q
+        elif op == "group_taxa":
+            q.group_taxa()
+            r = q
+        elif op == "select_taxa":
+            before = q.mat.copy()
+            r = q.select_taxa(numpy.array(arg, dtype="int64"))
+            box["src_untouched"] = bool(numpy.array_equal(q.mat, before, equal_nan=True)) and list(q.taxa.tolist()) == names0
+        else:
+            raise KeyError(op)
+        box["r"] = r
+    ctx.transitions += 1
+    ctx.flag(f"result-op:{op}")
+    if not ctx.guard(call, case=case, sig_prefix=f"{name}:result-op:{op}:"):
+        return
+    r = box["r"]
+    ok = True
+    if not numpy.array_equal(base.mat, mat0, equal_nan=True) or list(base.taxa.tolist()) != names0 or not box.get("src_untouched", True):
+        ok = False
+        ctx.violation(f"{name}:result-op:aliasing", f"{op}({arg}) on a deep copy / selection changed the source object", case)
+    labels_now = list(r.taxa.tolist())
+    if len(set(labels_now)) != len(labels_now) or any(l not in names0 for l in labels_now):
+        ctx.violation(f"{name}:result-op:labels-detached", f"{op}({arg}): taxa {labels_now} is not a selection of {names0}", case)
+        return
+    idx = [names0.index(l) for l in labels_now]
+    nn = len(idx)
+    if op in ("reorder_taxa", "reorder", "select_taxa") and idx != list(arg):
+        ok = False
+        ctx.violation(f"{name}:result-op:labels-detached", f"{op}({arg}): taxa are {labels_now}, expected {[names0[i] for i in arg]}", case)
+    if op in ("sort_taxa", "group_taxa", "deepcopy") and sorted(idx) != list(range(len(names0))):
+        ok = False
+        ctx.violation(f"{name}:result-op:labels-detached", f"{op}: taxa {labels_now} are not a permutation of {names0}", case)
+    if [int(v) for v in r.taxa_grp.tolist()] != [grp0[i] for i in idx]:
+        ok = False
+        ctx.violation(f"{name}:result-op:labels-detached", f"{op}({arg}): taxa_grp {r.taxa_grp.tolist()} does not follow the taxa "
+                      f"{labels_now} (groups were {dict(zip(names0, grp0))})", case)
+    want = mat0[numpy.ix_(*([idx] * k))]
+    if r.mat.shape != want.shape or not numpy.array_equal(r.mat, want, equal_nan=True):
+        ok = False
+        if r.mat.shape == want.shape:
+            d = tuple(int(v) for v in numpy.argwhere(~((r.mat == want) | (numpy.isnan(r.mat) & numpy.isnan(want))))[0])
+            det = (f"entry {list(d[:k])} (parents by label {[labels_now[i] for i in d[:k]]}) holds {r.mat[d]!r}, the value computed for "
+                   f"these parents is {want[d]!r}")
+        else:
+            det = f"shape {r.mat.shape}, expected {want.shape}"
+        ctx.violation(f"{name}:result-op:labels-detached", f"after {op}({arg}) on the computed matrix (taxa {names0} -> {labels_now}): {det}", case)
+    # metadata: the parent axes are the square taxa axes
+    iscov = KINDS[kind][3]
+    meta = dict(square_taxa_axes=tuple(r.square_taxa_axes), nsquare_taxa=int(r.nsquare_taxa), ndim=r.mat.ndim,
+                is_square_taxa=bool(r.is_square_taxa()), taxa_axis=int(r.taxa_axis))
+    exp_meta = dict(square_taxa_axes=tuple(range(k)), nsquare_taxa=k, ndim=k + (2 if iscov else 1), is_square_taxa=True, taxa_axis=0)
+    if iscov:
+        meta["square_trait_axes"] = tuple(r.square_trait_axes)
+        exp_meta["square_trait_axes"] = (k, k + 1)
+    else:
+        meta["trait_axis"] = int(r.trait_axis)
+        exp_meta["trait_axis"] = k
+    if meta != exp_meta:
+        ok = False
+        ctx.violation(f"{name}:square-axes-metadata", f"{meta}, expected {exp_meta} for a {k}-parent cross tensor", case)
+    # and the reference, addressed by label
+    if ok:
+        sel_pop = tuple(pop_eff[i] for i in idx)
+        exp = expected(scheme, case["layout"], sel_pop, case["nself"] if KINDS[kind][2] else 0, case["u"])
+        stub = types.SimpleNamespace(ntaxa=nn, taxa=r.taxa, taxa_grp=r.taxa_grp)
+        gmstub = types.SimpleNamespace(ntrait=len(case["u"][0]))
+        desc = dict(pop=sel_pop, layout=case["layout"], nself=case["nself"], mem=case["mem"], u=case["u"])
+        ok = check_object(ctx, desc, scheme, kind, r, stub, gmstub, exp, rec_case=case)
+    cfg = digest(("resop", scheme, kind, case["pop"], order, op, arg))
+    ctx.state(cfg)
+    ctx.outcome(digest((labels_now, numpy.round(numpy.nan_to_num(r.mat, nan=-777.0), 9))))
+    if idx != list(range(len(names0))) and not numpy.array_equal(numpy.nan_to_num(r.mat), numpy.nan_to_num(mat0)):
+        ctx.nontriv(cfg)
+        ctx.count("result-op:changed-the-matrix")
+    if ok:
+        ctx.traces += 1
+
+
+# ----------------------------------------------------------------------------
 # shards
 def l1_spaces(tier):
     """(n taxa, m markers, mode) population spaces per scheme; 'full' = every population, 'flip' = one
@@ -1124,6 +1270,9 @@ def shards(tier, seed):
     for scheme in SCHEMES:
         out.append(("L7u", scheme))
         out.append(("L7m", scheme))
+    # ---- L8 operations on the result objects
+    for scheme in SCHEMES:
+        out.append(("L8", scheme))
     return out
 
 
@@ -1395,6 +1544,31 @@ def run_shard(spec, ctx):
                         run_history(ctx, dict(layer="L7", target="matrix", scheme=scheme, kind=kind, entry=entry, sizes=sizes,
                                               steps=steps, seed=seed))
         ctx.flag("L7m")
+    elif layer == "L8":
+        _, scheme = spec
+        n = 4 if scheme == "4way" else 3
+        m = 2
+        layout = layouts(m, seed)[0]
+        order = [2, 0, 3, 1][:n] if n == 4 else [2, 0, 1]          # labels are NOT in sorted order on the axes
+        for pi, pop in enumerate(rich_pops(scheme, n, m, 2)):
+            u = uset(m, seed)[1 + 2 * pi]
+            for kind in KINDS:
+                common = dict(layer="L8", scheme=scheme, kind=kind, pop=pop, layout=layout, order=order, nself=(1, "inf")[pi],
+                              mem=1024, u=u, counts=(1, 1), seed=seed)
+                name = clsname(scheme, kind)
+                box = {}
+
+                def build0():
+                    pg = make_pgmat(pop, layout, seed, order=order)
+                    box["o"] = lib_build(scheme, kind, "from_algmod", pg, make_model(u, seed), common["nself"], 1024, (1, 1))
+                ctx.transitions += 1
+                if not ctx.guard(build0, case=dict(common, op="deepcopy", arg=None), sig_prefix=f"{name}:"):
+                    ctx.count(f"raised:{name}")
+                    ctx.count(f"result-op:{name}")
+                    continue
+                for op, arg in result_op_cases(n):
+                    run_result_op(ctx, dict(common, op=op, arg=arg), base=box["o"])
+        ctx.flag("L8")
     else:
         raise KeyError(layer)
 
@@ -1413,11 +1587,17 @@ def finalize(ctx, tier, seed):
     for f in ("nself:0", "nself:1", "nself:2", "nself:5", "nself:inf", "mem:None", "mem:default", "mem<chrom", "mem==chrom",
               "mem>chrom", "mem divides chrom", "mem does not divide chrom", "r:unlinked-chromosomes", "r:coincident(0)",
               "r:half-within-chromosome", "r:linked", "chromosome-with-one-marker", "entry:from_algmod", "entry:from_gmod",
-              "entry:factory.from_algmod", "entry:factory.from_gmod", "L2:all-effect-vectors", "L3", "L4", "L5", "L6f", "L6u", "L7u", "L7m"):
+              "entry:factory.from_algmod", "entry:factory.from_gmod", "L2:all-effect-vectors", "L3", "L4", "L5", "L6f", "L6u", "L7u", "L7m", "L8"):
         assert f in ctx.flags, f"shortcut case never exercised: {f}"
     for et in ("cross", "self", "female==male", "female1==male1"):
         assert c.get(f"entries:{et}", 0) > 0, et
         assert c.get(f"uc-entries:{et}", 0) > 0, et
+    for op in RESULT_OPS:
+        assert f"result-op:{op}" in ctx.flags, op
+    for scheme in SCHEMES:
+        for kind in KINDS:
+            assert c.get(f"result-op:{clsname(scheme, kind)}", 0) > 0, (scheme, kind)
+    assert c.get("result-op:changed-the-matrix", 0) > 100
     for g in UC_INGREDIENTS:
         assert f"history:uc:{g}" in ctx.flags, g
     for g in MAT_INGREDIENTS_GENETIC:
@@ -1444,6 +1624,8 @@ def replay(case, ctx):
         run_uc(ctx, case)
     elif layer == "L7":
         run_history(ctx, case)
+    elif layer == "L8":
+        run_result_op(ctx, case)
     else:
         c = norm_case(case)
         ref = None
